@@ -127,6 +127,91 @@ func (e *env) prepare(kind, name string, ver int, variant int) func() {
 	return func() {}
 }
 
+// prepareNil: the same registration with a NIL handler (the public API takes it: the entry is stored and listed; calling
+// it is the user's problem, the harness never does).
+func (e *env) prepareNil(kind, name string, ver int, variant int) func() {
+	s := e.f.S
+	switch kind {
+	case "tool":
+		t := mcp.NewTool(name, mcp.WithDescription(desc(ver)))
+		return func() { s.RegisterTool(t, nil) }
+	case "prompt":
+		p := &mcp.Prompt{Name: name, Description: desc(ver)}
+		return func() { s.RegisterPrompt(p, nil) }
+	case "resource":
+		r := &mcp.Resource{URI: name, Name: "res", Description: desc(ver)}
+		if variant%2 == 1 {
+			return func() { s.RegisterResources(r, nil) }
+		}
+		return func() { s.RegisterResource(r, nil) }
+	case "template":
+		t := mcp.NewResourceTemplate("tpl://x/{id}", name, mcp.WithTemplateDescription(desc(ver)))
+		return func() { s.RegisterResourceTemplate(t, nil) }
+	case "notif":
+		return func() { s.RegisterNotificationHandler(name, nil) }
+	}
+	return func() {}
+}
+
+// refusedRegistrations: calls of the public registration API that store nothing (what the code does today): nil
+// descriptors with and without a handler, empty keys with a nil handler, a template without a URI template.
+var refusedRegistrations = map[string][]string{
+	"tool":     {"nil-descriptor", "nil-descriptor-nil-handler", "empty-name-nil-handler"},
+	"prompt":   {"nil-descriptor", "nil-descriptor-nil-handler", "empty-name-nil-handler"},
+	"resource": {"nil-descriptor", "nil-descriptor-nil-handler", "empty-name-nil-handler", "nil-descriptor-multi", "empty-name-nil-handler-multi"},
+	"template": {"nil-descriptor", "nil-descriptor-nil-handler", "empty-name-nil-handler", "nil-uri-template", "nil-uri-template-nil-handler"},
+}
+
+func (e *env) refusedRegistration(kind, variant string) {
+	s := e.f.S
+	th := func(ctx context.Context, req *mcp.CallToolRequest) (*mcp.CallToolResult, error) {
+		return mcp.NewTextResult("x"), nil
+	}
+	ph := func(ctx context.Context, req *mcp.GetPromptRequest) (*mcp.GetPromptResult, error) {
+		return &mcp.GetPromptResult{}, nil
+	}
+	rh := func(ctx context.Context, req *mcp.ReadResourceRequest) (mcp.ResourceContents, error) {
+		return mcp.TextResourceContents{}, nil
+	}
+	rsh := func(ctx context.Context, req *mcp.ReadResourceRequest) ([]mcp.ResourceContents, error) {
+		return nil, nil
+	}
+	switch kind + "/" + variant {
+	case "tool/nil-descriptor":
+		s.RegisterTool(nil, th)
+	case "tool/nil-descriptor-nil-handler":
+		s.RegisterTool(nil, nil)
+	case "tool/empty-name-nil-handler":
+		s.RegisterTool(mcp.NewTool(""), nil)
+	case "prompt/nil-descriptor":
+		s.RegisterPrompt(nil, ph)
+	case "prompt/nil-descriptor-nil-handler":
+		s.RegisterPrompt(nil, nil)
+	case "prompt/empty-name-nil-handler":
+		s.RegisterPrompt(&mcp.Prompt{Name: "", Description: "x"}, nil)
+	case "resource/nil-descriptor":
+		s.RegisterResource(nil, rh)
+	case "resource/nil-descriptor-nil-handler":
+		s.RegisterResource(nil, nil)
+	case "resource/empty-name-nil-handler":
+		s.RegisterResource(&mcp.Resource{URI: "", Name: "res"}, nil)
+	case "resource/nil-descriptor-multi":
+		s.RegisterResources(nil, rsh)
+	case "resource/empty-name-nil-handler-multi":
+		s.RegisterResources(&mcp.Resource{URI: "", Name: "res"}, nil)
+	case "template/nil-descriptor":
+		s.RegisterResourceTemplate(nil, rsh)
+	case "template/nil-descriptor-nil-handler":
+		s.RegisterResourceTemplate(nil, nil)
+	case "template/empty-name-nil-handler":
+		s.RegisterResourceTemplate(mcp.NewResourceTemplate("tpl://x/{id}", ""), nil)
+	case "template/nil-uri-template":
+		s.RegisterResourceTemplate(&mcp.ResourceTemplate{Name: "nouri"}, rsh)
+	case "template/nil-uri-template-nil-handler":
+		s.RegisterResourceTemplate(&mcp.ResourceTemplate{Name: "nouri2"}, nil)
+	}
+}
+
 type rpcResp struct {
 	Status int
 	Result json.RawMessage
